@@ -127,6 +127,26 @@ impl Family {
     }
 }
 
+/// Three-point perfect curves that are almost (or exactly) straight: middle point near the chord's centre, integer
+/// coordinates, sagitta from 0 to about 1 px - the arcs that need the fewest sub-points.
+pub fn near_collinear_arcs() -> Vec<Vec<PathControlPoint>> {
+    let mut v = Vec::new();
+    for m in (10i32..=60).step_by(2) {
+        for cx in [2 * m, 2 * m + 1] {
+            for slope in [0i32, 1, 3, 7, 20] {
+                let by = slope * m / 50;
+                for d in [-1i32, 0, 1] {
+                    for off in [(0.0f32, 0.0f32), (100.0, 100.0)] {
+                        let p = |x: i32, y: i32, t| PathControlPoint { pos: Pos::new(x as f32 + off.0, y as f32 + off.1), path_type: t };
+                        v.push(vec![p(0, 0, Some(PathType::PERFECT_CURVE)), p(m, by, None), p(cx, 2 * by + d, None)]);
+                    }
+                }
+            }
+        }
+    }
+    v
+}
+
 pub fn points_json(pts: &[PathControlPoint]) -> Value {
     Value::Array(
         pts.iter()
